@@ -23,7 +23,9 @@ impl SubCheck for BfsOrder {
     }
     fn strategy(&self, tier: Tier) -> BoxedStrategy<GCase> {
         let mut p = GraphParams::small();
-        p.exps = vec![Exp::Always, Exp::Sometimes];
+        // (eventually-properties take part as bystanders: their bits travel with the jobs, and
+        // nothing about them may disturb the order or the parents of always/sometimes witnesses)
+        p.exps = vec![Exp::Always, Exp::Sometimes, Exp::Always, Exp::Sometimes, Exp::Eventually];
         p.max_props = 4;
         p.max_n = tier.pick(30, 80);
         p.max_deg = 4;
@@ -61,7 +63,11 @@ impl SubCheck for BfsOrder {
             Err(e) => fail!("c13/discoveries-panicked", "{}", e),
         };
         let mut nontrivial = false;
+        cov.label_if(g.props.iter().any(|p| p.exp == Exp::Eventually), "with_eventually_bystander");
         for (k, p) in g.props.iter().enumerate() {
+            if p.exp == Exp::Eventually {
+                continue;
+            }
             if let Some(path) = disc.get(PROP_NAMES[k]) {
                 let want_on = p.exp == Exp::Sometimes;
                 let best = r.set.iter().filter(|s| p.on.contains(s) == want_on).filter_map(|s| r.dist[*s as usize]).min();
@@ -102,7 +108,7 @@ impl SubCheck for BfsOrder {
         Ok(())
     }
     fn mandatory(&self) -> Vec<&'static str> {
-        vec!["discovery_checked", "witness_depth>=2_with_alternatives", "join", "multi_init", "oob_successor"]
+        vec!["discovery_checked", "witness_depth>=2_with_alternatives", "join", "multi_init", "oob_successor", "with_eventually_bystander"]
     }
 }
 
